@@ -56,7 +56,7 @@ Ltac bools :=
   | H : context [Nat.leb ?a ?b] |- _ => destruct (Nat.leb_spec a b)
   end; cbn [b2n andb orb negb] in *.
 
-Ltac projs := cbn [ph closer cli_open gen started sconn pending fired waiters established last_start runners] in *.
+Ltac projs := cbn [ph closer cli_open gen started sconn pending fired waiters established last_start runners stale_cfg] in *.
 
 Ltac split_ifs :=
   repeat match goal with
@@ -80,8 +80,8 @@ Ltac small :=
 
 Lemma step_wf sw s a : wf sw s -> wf sw (step sw s a).
 Proof.
-  intros [Hcl Hcli Htok Hconn Hst Hwa Hrun].
-  destruct s as [gen0 st0 conn0 ph0 cli0 pend0 closer0 fired0 est0 wait0 last0 run0].
+  intros [Hcl Hcli Htok Hconn Hst Hwa Hrun Hstale].
+  destruct s as [gen0 st0 conn0 ph0 cli0 pend0 closer0 fired0 est0 wait0 last0 run0 stale0].
   unfold tokens in Htok. projs.
   destruct a; destruct ph0; cbn [step ph]; try (split; assumption);
     projs; try (rewrite Hcl in * ); try (rewrite Hcli in * ); try (rewrite Hwa in * );
@@ -125,14 +125,14 @@ Lemma start_progress sw s :
   wait_cfg_unguarded sw = false -> results_sent sw -> wf sw s -> start_pending s = true ->
   enabled_env sw s <> [] /\ forall a, In a (enabled_env sw s) -> rank (step sw s a) < rank s.
 Proof.
-  intros G [U1 [U2 U3]] [_ _ _ Hconn _ _ _].
-  destruct s as [gen0 st0 conn0 ph0 cli0 pend0 closer0 fired0 est0 wait0 last0 run0]. projs.
+  intros G [U1 [U2 U3]] [_ _ _ Hconn _ _ _ _].
+  destruct s as [gen0 st0 conn0 ph0 cli0 pend0 closer0 fired0 est0 wait0 last0 run0 stale0]. projs.
   unfold start_pending, enabled_env, rank. projs.
   destruct ph0; try discriminate; intros _.
   - split; [discriminate|]. intros a [<-|[<-|[]]]; cbn; lia.
   - split; [discriminate|]. intros a [<-|[<-|[]]]; cbn; unfold fail_start; cbn; lia.
   - destruct (conn_live conn0) eqn:L; (split; [discriminate|]).
-    + intros a [<-|[<-|[<-|[<-|[]]]]]; cbn [step ph sconn]; rewrite ?L; unfold fail_start, set_ph; cbn; lia.
+    + intros a [<-|[<-|[<-|[<-|[]]]]]; cbn [step ph sconn]; rewrite ?L; destruct stale0; unfold fail_start, set_ph; cbn; lia.
     + intros a [<-|[<-|[]]]; cbn [step ph]; unfold fail_start; cbn; lia.
   - rewrite (Hconn G). split; [discriminate|].
     intros a [<-|[<-|[<-|[<-|[]]]]]; cbn [step ph sconn]; rewrite ?(Hconn G), ?G, ?U1, ?U2, ?U3;
@@ -151,14 +151,14 @@ Lemma start_progress_partial sw s :
     ph (step sw s a) = AwaitLost.
 Proof.
   intros _.
-  destruct s as [gen0 st0 conn0 ph0 cli0 pend0 closer0 fired0 est0 wait0 last0 run0]. projs.
+  destruct s as [gen0 st0 conn0 ph0 cli0 pend0 closer0 fired0 est0 wait0 last0 run0 stale0]. projs.
   unfold start_pending, enabled_env, rank. projs.
   destruct ph0; try discriminate; intros _.
   - split; [split; [discriminate|intros [[X _]|X]; discriminate]|]. intros a [<-|[<-|[]]]; left; cbn; lia.
   - split; [split; [discriminate|intros [[X _]|X]; discriminate]|].
     intros a [<-|[<-|[]]]; left; cbn; unfold fail_start; cbn; lia.
   - destruct (conn_live conn0) eqn:L; (split; [split; [discriminate|intros [[X _]|X]; discriminate]|]).
-    + intros a [<-|[<-|[<-|[<-|[]]]]]; left; cbn [step ph sconn]; rewrite ?L; unfold fail_start, set_ph; cbn; lia.
+    + intros a [<-|[<-|[<-|[<-|[]]]]]; left; cbn [step ph sconn]; rewrite ?L; destruct stale0; unfold fail_start, set_ph; cbn; lia.
     + intros a [<-|[<-|[]]]; left; cbn [step ph]; unfold fail_start; cbn; lia.
   - destruct (conn_live conn0) eqn:L.
     + split; [split; [discriminate|intros [[_ X]|X]; discriminate]|].
@@ -179,7 +179,7 @@ Lemma start_result sw s a :
    hd_error (established s') = Some (gen s')) \/
   (ph s' = Idle /\ last_start s' = Some ResErr /\ started s' = false).
 Proof.
-  destruct s as [gen0 st0 conn0 ph0 cli0 pend0 closer0 fired0 est0 wait0 last0 run0].
+  destruct s as [gen0 st0 conn0 ph0 cli0 pend0 closer0 fired0 est0 wait0 last0 run0 stale0].
   unfold start_pending at 1. projs.
   destruct ph0; try discriminate; intros _; destruct a; cbn [step ph sconn];
     try (intros X; discriminate X);
@@ -201,7 +201,7 @@ Lemma stuck_step sw s a :
   ph (step sw s a) = AwaitConfigure /\ conn_live (sconn (step sw s a)) = false /\ fired (step sw s a) = fired s.
 Proof.
   intros G.
-  destruct s as [gen0 st0 conn0 ph0 cli0 pend0 closer0 fired0 est0 wait0 last0 run0]. projs.
+  destruct s as [gen0 st0 conn0 ph0 cli0 pend0 closer0 fired0 est0 wait0 last0 run0 stale0]. projs.
   intros -> L. destruct a; cbn [step ph sconn]; rewrite ?L, ?G; projs; try (repeat split; assumption).
   unfold emit_close; projs. destruct cli0; projs; destruct conn0; cbn in *; repeat split; try reflexivity; discriminate.
 Qed.
@@ -218,7 +218,7 @@ Qed.
 
 Lemma waiters_only_in_session sw s : wf sw s -> waiters s <> [] -> ph s = Configured \/ ph s = Closing.
 Proof.
-  intros [_ _ _ _ _ Hwa _] W. destruct (ph s); auto; contradiction.
+  intros [_ _ _ _ _ Hwa _ _] W. destruct (ph s); auto; contradiction.
 Qed.
 
 Lemma memn_app_last g l : memn g (l ++ [g]) = true.
@@ -228,7 +228,7 @@ Lemma wait_released_stop sw s :
   ph s = Configured ->
   let s' := run sw s [AStop; IServeDone] in ph s' = Idle /\ waiters s' = [] /\ started s' = false /\ sconn s' = CNone.
 Proof.
-  destruct s as [gen0 st0 conn0 ph0 cli0 pend0 closer0 fired0 est0 wait0 last0 run0]. projs. intros ->.
+  destruct s as [gen0 st0 conn0 ph0 cli0 pend0 closer0 fired0 est0 wait0 last0 run0 stale0]. projs. intros ->.
   cbn. repeat split.
 Qed.
 
@@ -238,7 +238,7 @@ Lemma lost_step sw s :
   ph s1 = Configured /\ pending s1 = pending s ++ [gen s] /\ gen s1 = gen s /\ fired s1 = fired s /\
   cli_open s1 = false /\ started s1 = started s /\ waiters s1 = waiters s.
 Proof.
-  destruct s as [gen0 st0 conn0 ph0 cli0 pend0 closer0 fired0 est0 wait0 last0 run0]. projs. intros -> ->.
+  destruct s as [gen0 st0 conn0 ph0 cli0 pend0 closer0 fired0 est0 wait0 last0 run0 stale0]. projs. intros -> ->.
   cbn [step ph]. unfold emit_close. projs. cbn zeta. repeat split.
 Qed.
 
@@ -247,7 +247,7 @@ Lemma deliver_own sw s :
   let s2 := step sw s (ADeliver (gen s)) in
   ph s2 = Closing /\ closer s2 = Some (gen s) /\ fired s2 = fired s.
 Proof.
-  destruct s as [gen0 st0 conn0 ph0 cli0 pend0 closer0 fired0 est0 wait0 last0 run0]. projs. intros -> M.
+  destruct s as [gen0 st0 conn0 ph0 cli0 pend0 closer0 fired0 est0 wait0 last0 run0 stale0]. projs. intros -> M.
   cbn [step ph pending gen]. rewrite M, Nat.eqb_refl. cbn [orb]. unfold begin_close, emit_close. projs.
   destruct cli0; cbn zeta; projs; repeat split.
 Qed.
@@ -258,7 +258,7 @@ Lemma serve_done_step sw s :
   ph s3 = Idle /\ waiters s3 = [] /\ started s3 = false /\ sconn s3 = CNone /\
   fired s3 = match closer s with Some g => g :: fired s | None => fired s end.
 Proof.
-  destruct s as [gen0 st0 conn0 ph0 cli0 pend0 closer0 fired0 est0 wait0 last0 run0]. projs. intros ->.
+  destruct s as [gen0 st0 conn0 ph0 cli0 pend0 closer0 fired0 est0 wait0 last0 run0 stale0]. projs. intros ->.
   cbn [step ph]. cbn zeta. projs. repeat split.
 Qed.
 
@@ -285,7 +285,7 @@ Lemma deliver_idle_hd sw s g r :
   ph s1 = Idle /\ pending s1 = r /\ fired s1 = g :: fired s /\ started s1 = started s /\ sconn s1 = sconn s /\
   waiters s1 = waiters s /\ gen s1 = gen s /\ cli_open s1 = cli_open s.
 Proof.
-  destruct s as [gen0 st0 conn0 ph0 cli0 pend0 closer0 fired0 est0 wait0 last0 run0]. projs. intros -> ->.
+  destruct s as [gen0 st0 conn0 ph0 cli0 pend0 closer0 fired0 est0 wait0 last0 run0 stale0]. projs. intros -> ->.
   cbn [step ph pending]. unfold memn. cbn [existsb remove_first]. rewrite Nat.eqb_refl. cbn [orb]. cbn zeta. projs.
   repeat split.
 Qed.
@@ -317,14 +317,14 @@ Qed.
 
 Lemma close_at_most_once sw s g : wf sw s -> count_occ_nat g (fired s) <= 1.
 Proof.
-  intros [_ _ Htok _ _ _ _]. specialize (Htok g). unfold tokens in Htok.
+  intros [_ _ Htok _ _ _ _ _]. specialize (Htok g). unfold tokens in Htok.
   destruct (Nat.leb 1 g && Nat.leb g (gen s)); cbn [b2n] in Htok; lia.
 Qed.
 
 Lemma close_exactly_once_when_settled sw s g :
   wf sw s -> ph s = Idle -> pending s = [] -> 1 <= g <= gen s -> count_occ_nat g (fired s) = 1.
 Proof.
-  intros [Hcl Hcli Htok _ _ _ _] P E Hg. specialize (Htok g). unfold tokens in Htok.
+  intros [Hcl Hcli Htok _ _ _ _ _] P E Hg. specialize (Htok g). unfold tokens in Htok.
   rewrite P in Hcl, Hcli. rewrite Hcl, Hcli, E in Htok. cbn [count_occ_nat andb b2n] in Htok.
   destruct (Nat.leb_spec 1 g) as [A|A]; [|lia]. destruct (Nat.leb_spec g (gen s)) as [B|B]; [|lia].
   cbn [andb b2n] in Htok. lia.
@@ -339,9 +339,9 @@ Lemma restart_works sw s :
   gen s' = S (gen s) /\ sconn s' = CLive (S (gen s)) /\ cli_open s' = true /\
   hd_error (established s') = Some (gen s') /\ pending s' = pending s /\ fired s' = fired s.
 Proof.
-  intros D U [_ _ _ Hconn _ _ _] P. rewrite P in Hconn. specialize (Hconn D).
-  destruct s as [gen0 st0 conn0 ph0 cli0 pend0 closer0 fired0 est0 wait0 last0 run0]. projs. subst.
-  cbn. rewrite U. cbn. repeat split.
+  intros D U [_ _ _ Hconn _ _ _ _] P. rewrite P in Hconn. specialize (Hconn D).
+  destruct s as [gen0 st0 conn0 ph0 cli0 pend0 closer0 fired0 est0 wait0 last0 run0 stale0]. projs. subst.
+  destruct stale0; cbn; rewrite ?U; cbn; repeat split.
 Qed.
 
 (* ... also when the connection the failed Start left behind is still there but no Start failed
@@ -352,8 +352,8 @@ Lemma restart_works_partial sw s :
   ph s' = Configured /\ started s' = true /\ last_start s' = Some ResOk /\ sconn s' = CLive (S (gen s)).
 Proof.
   intros U.
-  destruct s as [gen0 st0 conn0 ph0 cli0 pend0 closer0 fired0 est0 wait0 last0 run0]. projs. intros -> ->.
-  cbn. rewrite U. cbn. repeat split.
+  destruct s as [gen0 st0 conn0 ph0 cli0 pend0 closer0 fired0 est0 wait0 last0 run0 stale0]. projs. intros -> ->.
+  destruct stale0; cbn; rewrite ?U; cbn; repeat split.
 Qed.
 
 (* ---- C16_stale_notification_harmless -------------------------------------- *)
@@ -363,7 +363,7 @@ Lemma stale_harmless sw s g :
   same_session s (step sw s (ADeliver g)).
 Proof.
   intros F F2 P N.
-  destruct s as [gen0 st0 conn0 ph0 cli0 pend0 closer0 fired0 est0 wait0 last0 run0]. projs. subst.
+  destruct s as [gen0 st0 conn0 ph0 cli0 pend0 closer0 fired0 est0 wait0 last0 run0 stale0]. projs. subst.
   cbn [step ph]. projs. rewrite F, F2. destruct (Nat.eqb_spec g gen0); [contradiction|]. cbn [orb andb].
   destruct (memn g pend0); unfold same_session; projs; repeat split.
 Qed.
@@ -371,7 +371,7 @@ Qed.
 Lemma idle_delivery_harmless sw s g : ph s = Idle -> same_session s (step sw s (ADeliver g)).
 Proof.
   intros P.
-  destruct s as [gen0 st0 conn0 ph0 cli0 pend0 closer0 fired0 est0 wait0 last0 run0]. projs. subst.
+  destruct s as [gen0 st0 conn0 ph0 cli0 pend0 closer0 fired0 est0 wait0 last0 run0 stale0]. projs. subst.
   cbn [step ph]. projs. destruct (memn g pend0); unfold same_session; projs; repeat split.
 Qed.
 
@@ -385,14 +385,14 @@ Proof.
   - cbn. unfold same_session. repeat split.
   - cbn [drain]. rewrite P. destruct (pending s) as [|g r] eqn:E; [unfold same_session; repeat split|].
     assert (g <> gen s) as N.
-    { destruct W as [_ _ Htok _ _ _ _]. specialize (Htok (gen s)). unfold tokens in Htok.
+    { destruct W as [_ _ Htok _ _ _ _ _]. specialize (Htok (gen s)). unfold tokens in Htok.
       rewrite C, E, Nat.eqb_refl in Htok. cbn [andb b2n count_occ_nat] in Htok.
       destruct (Nat.eqb_spec g (gen s)) as [->|]; [|assumption].
       destruct (Nat.leb 1 (gen s) && Nat.leb (gen s) (gen s)); cbn [b2n] in Htok; lia. }
-    pose proof (stale_harmless sw s g F F2 P N) as [A [B [C' [D [E' [F' [G [H R]]]]]]]].
+    pose proof (stale_harmless sw s g F F2 P N) as [A [B [C' [D [E' [F' [G [H [R T]]]]]]]]].
     pose proof (step_wf sw s (ADeliver g) W) as W'.
     specialize (IH (step sw s (ADeliver g)) F F2 W' ltac:(congruence) ltac:(congruence)).
-    destruct IH as [A1 [B1 [C1 [D1 [E1 [F1 [G1 [H1 R1]]]]]]]].
+    destruct IH as [A1 [B1 [C1 [D1 [E1 [F1 [G1 [H1 [R1 T1]]]]]]]]].
     unfold same_session. repeat split; congruence.
 Qed.
 
@@ -419,7 +419,7 @@ Lemma dead_conn_step s g :
   let s' := run_start pinned s BHealthy in
   ph s' = Idle /\ sconn s' = CDead g /\ started s' = false /\ last_start s' = Some ResErr.
 Proof.
-  destruct s as [gen0 st0 conn0 ph0 cli0 pend0 closer0 fired0 est0 wait0 last0 run0]. projs. intros -> ->.
+  destruct s as [gen0 st0 conn0 ph0 cli0 pend0 closer0 fired0 est0 wait0 last0 run0 stale0]. projs. intros -> ->.
   cbn. repeat split.
 Qed.
 
@@ -487,7 +487,7 @@ Proof. vm_compute. repeat split. Qed.
 Lemma await_lost_step sw s a :
   ph s = AwaitLost -> a <> EConnLost -> step sw s a = s.
 Proof.
-  destruct s as [gen0 st0 conn0 ph0 cli0 pend0 closer0 fired0 est0 wait0 last0 run0]. projs. intros -> N.
+  destruct s as [gen0 st0 conn0 ph0 cli0 pend0 closer0 fired0 est0 wait0 last0 run0 stale0]. projs. intros -> N.
   destruct a; try reflexivity. contradiction.
 Qed.
 
@@ -517,7 +517,7 @@ Qed.
 Lemma runners_only_in_session sw s :
   close_takes_srv_result sw = false -> wf sw s -> runners s <> [] -> ph s = Configured \/ ph s = Closing.
 Proof.
-  intros D [_ _ _ _ _ _ Hrun] R. specialize (Hrun D). destruct (ph s); auto; contradiction.
+  intros D [_ _ _ _ _ _ Hrun _] R. specialize (Hrun D). destruct (ph s); auto; contradiction.
 Qed.
 
 Lemma run_released_stop sw s :
@@ -525,8 +525,8 @@ Lemma run_released_stop sw s :
   let s' := run sw s [AStop; IServeDone] in
   ph s' = Idle /\ runners s' = [] /\ waiters s' = [] /\ started s' = false /\ lock_free s' = true.
 Proof.
-  intros D [_ _ _ _ _ _ Hrun] P. specialize (Hrun D). rewrite P in Hrun.
-  destruct s as [gen0 st0 conn0 ph0 cli0 pend0 closer0 fired0 est0 wait0 last0 run0]. projs. subst.
+  intros D [_ _ _ _ _ _ Hrun _] P. specialize (Hrun D). rewrite P in Hrun.
+  destruct s as [gen0 st0 conn0 ph0 cli0 pend0 closer0 fired0 est0 wait0 last0 run0 stale0]. projs. subst.
   unfold run. cbn [fold_left step ph]. unfold begin_close, emit_close. projs.
   destruct cli0; cbn [step ph]; projs; rewrite D, (remove_all_all gen0 run0 Hrun); repeat split.
 Qed.
@@ -535,7 +535,7 @@ Lemma serve_done_runners sw s :
   close_takes_srv_result sw = false -> ph s = Closing -> forallb (Nat.eqb (gen s)) (runners s) = true ->
   runners (step sw s IServeDone) = [].
 Proof.
-  destruct s as [gen0 st0 conn0 ph0 cli0 pend0 closer0 fired0 est0 wait0 last0 run0]. projs. intros D -> H.
+  destruct s as [gen0 st0 conn0 ph0 cli0 pend0 closer0 fired0 est0 wait0 last0 run0 stale0]. projs. intros D -> H.
   cbn [step ph]. projs. rewrite D. exact (remove_all_all gen0 run0 H).
 Qed.
 
@@ -555,7 +555,7 @@ Proof.
   rewrite <- G1 in *.
   destruct (deliver_own sw s1 P1 M) as [P2 _].
   set (s2 := step sw s1 (ADeliver (gen s1))) in *.
-  destruct W2 as [_ _ _ _ _ _ Hrun]. specialize (Hrun D). rewrite P2 in Hrun.
+  destruct W2 as [_ _ _ _ _ _ Hrun _]. specialize (Hrun D). rewrite P2 in Hrun.
   exact (serve_done_runners sw s2 D P2 Hrun).
 Qed.
 
@@ -563,7 +563,7 @@ Qed.
 
 Lemma closing_stuck_step sw s a : ph s = ClosingStuck -> step sw s a = s.
 Proof.
-  destruct s as [gen0 st0 conn0 ph0 cli0 pend0 closer0 fired0 est0 wait0 last0 run0]. projs. intros ->.
+  destruct s as [gen0 st0 conn0 ph0 cli0 pend0 closer0 fired0 est0 wait0 last0 run0 stale0]. projs. intros ->.
   destruct a; reflexivity.
 Qed.
 
@@ -582,7 +582,7 @@ Lemma stale_runner_step sw s a g :
   close_takes_srv_result sw = true -> stale_runner g s -> stale_runner g (step sw s a).
 Proof.
   intros D [I [L O]].
-  destruct s as [gen0 st0 conn0 ph0 cli0 pend0 closer0 fired0 est0 wait0 last0 run0]. projs.
+  destruct s as [gen0 st0 conn0 ph0 cli0 pend0 closer0 fired0 est0 wait0 last0 run0 stale0]. projs.
   destruct a; destruct ph0; cbn [step ph]; try (split; [exact I|split; [exact L|exact O]]);
     unfold fail_start, begin_close, emit_close, set_ph, kill; projs; split_ifs; projs;
     unfold stale_runner; projs;
@@ -616,4 +616,33 @@ Proof.
     apply (stale_runner_run srv_result_shared l' 1 _ eq_refl).
     vm_compute. split; [left; reflexivity|]. split; [lia|right; exact I].
   - split; [reflexivity|]. intros l'. rewrite closing_stuck_run by reflexivity. reflexivity.
+Qed.
+
+(* ---- a session's configuration result belongs to that session --------------------------------- *)
+
+(* with a channel per Start: a pending Start ends in Configured only through the Configure of its own
+   session being handled and accepted while it waits *)
+Lemma start_succeeds_on_own_configure sw s a :
+  cfg_chan_shared sw = false -> wf sw s -> start_pending s = true -> ph (step sw s a) = Configured ->
+  a = ECfgOk /\ ph s = AwaitConfigure /\ conn_live (sconn s) = true.
+Proof.
+  intros D [_ _ _ _ _ _ _ Hstale]. specialize (Hstale D).
+  destruct s as [gen0 st0 conn0 ph0 cli0 pend0 closer0 fired0 est0 wait0 last0 run0 stale0]. projs. subst stale0.
+  unfold start_pending. projs.
+  destruct ph0; try discriminate; intros _; destruct a; cbn [step ph sconn];
+    unfold fail_start, set_ph, emit_close; projs;
+    repeat match goal with |- context [if ?b then _ else _] => destruct b eqn:? end; projs;
+    try (intros X; discriminate X); intros _; repeat split; assumption.
+Qed.
+
+(* the variant whose channel is created once: a result left over from a session that failed is taken
+   for the next session's: Start reports success right after registration, without any Configure *)
+Lemma stale_configuration_refuted :
+  exists l, reachable shared_cfg_chan (run shared_cfg_chan init l) /\
+    let s := run shared_cfg_chan init l in
+    ph s = Idle /\ last_start s = Some ResErr /\ stale_cfg s = true /\
+    let s' := run shared_cfg_chan s [AStart; EDialOk; ISetupOk; ERegOk] in
+    ph s' = Configured /\ last_start s' = Some ResOk /\ started s' = true.
+Proof.
+  exists (start_actions BDropInSlowCfg). split; [eexists; reflexivity|]. vm_compute. repeat split.
 Qed.
